@@ -18,8 +18,7 @@ from ..loader import AnalysisError, unparse, call_name
 from ..dataflow import forward, target_names, single_assign_subst
 from .C10 import parser_line_loop, check_default_t
 
-TECHNIQUE = ('static analysis: flow-sensitive taint analysis (raw line vs comment-stripped text) with branch refinement over '
-             'a hand-built CFG; bounded path enumeration of the classification loop; reader/writer table agreement')
+TECHNIQUE = ("static analysis: flow-sensitive taint analysis (raw line vs comment-stripped text) with branch refinement over the CFG of the flattened parser loop; bounded path enumeration of the classification loop; reader/writer table agreement (replace chains); branch-outcome facts for '='-splits elsewhere; lint of emitted comment lines")
 EXPLANATION = (
     'Taint analysis of the parser line loop: the raw line may carry comment text; every branch condition and every value '
     'stored into a class container must be computed from the comment-stripped text (or be conjoined with a test that the '
